@@ -1,6 +1,7 @@
 package main
 
 import (
+	"encoding/binary"
 	"encoding/json"
 	"fmt"
 	"strings"
@@ -132,6 +133,15 @@ func runC11(c *Ctx, n, t int, tag string, dv c11Dev) c11Obs {
 					bc = nil
 				case "bc-long":
 					bc = append(bc, fresh(7))
+				case "higher-degree":
+					// the dealer announces AND deals a polynomial with one coefficient more
+					bc = append(bc, fresh(5))
+					obs.dealt = append(obs.dealt, scalarDec(fresh(5)))
+					for j := 0; j < n; j++ {
+						if pd, e := inst.VerifInstance().GetDealer().PlaintextDeal(j); e == nil {
+							obs.shares[j] = scalarDec(higherShare(pd.SecShare.V, fresh(5), j, len(coeffs)))
+						}
+					}
 				}
 				obs.bcScalars = nil
 				var pts [][]byte
@@ -142,7 +152,7 @@ func runC11(c *Ctx, n, t int, tag string, dv c11Dev) c11Obs {
 				if pts == nil {
 					pts = [][]byte{}
 				}
-				if strings.HasPrefix(dv.Kind, "bc-") {
+				if strings.HasPrefix(dv.Kind, "bc-") || dv.Kind == "higher-degree" {
 					var req map[string]json.RawMessage
 					json.Unmarshal(res.ResultMsgs[0].Data, &req)
 					inner, _ := json.Marshal(pts)
@@ -152,6 +162,36 @@ func runC11(c *Ctx, n, t int, tag string, dv c11Dev) c11Obs {
 			case string(o.Type) == opDeals:
 				for k := range res.ResultMsgs {
 					m := &res.ResultMsgs[k]
+					if dv.Kind == "higher-degree" {
+						j := -1
+						for x, u := range cl.Users {
+							if u == m.RecipientAddr {
+								j = x
+							}
+						}
+						if j < 0 || j == dv.Dealer {
+							continue
+						}
+						g := inst.VerifInstance()
+						pd, e := g.GetDealer().PlaintextDeal(j)
+						if e != nil {
+							panic(e)
+						}
+						d2 := *pd
+						sh := *pd.SecShare
+						sh.V = higherShare(pd.SecShare.V, fresh(5), j, len(pd.Commitments))
+						d2.SecShare = &sh
+						d2.Commitments = append(append([]kyber.Point{}, pd.Commitments...), c04Suite.Point().Mul(fresh(5), nil))
+						d2.SessionID = kyberSessionID(c04Suite.Point().Mul(inst.GetSecKey(), nil), g.GetConfig().NewNodes, d2.Commitments, int(pd.T))
+						enc := kyberEncryptDeal(inst.GetSecKey(), g.GetConfig().NewNodes, j, &d2)
+						plain, _ := json.Marshal(signedDkgDeal(inst.GetSecKey(), dv.Dealer, enc))
+						ct2, _ := ecies.Encrypt(c04Suite, cl.Machines[j].GetPubKey(), plain, c04Suite.Hash)
+						var req2 map[string]json.RawMessage
+						json.Unmarshal(m.Data, &req2)
+						req2["Deal"], _ = json.Marshal(ct2)
+						m.Data, _ = json.Marshal(req2)
+						continue
+					}
 					if m.RecipientAddr != cl.Users[dv.Victim] {
 						continue
 					}
@@ -213,7 +253,7 @@ func runC11(c *Ctx, n, t int, tag string, dv c11Dev) c11Obs {
 						bad.SecShare = &sh
 						obs.shares[dv.Victim] = scalarDec(sh.V)
 						enc := kyberEncryptDeal(inst.GetSecKey(), g.GetConfig().NewNodes, dv.Victim, &bad)
-						plain, _ := json.Marshal(dkgPedersen.Deal{Index: uint32(dv.Dealer), Deal: enc})
+						plain, _ := json.Marshal(signedDkgDeal(inst.GetSecKey(), dv.Dealer, enc))
 						ct, _ = ecies.Encrypt(c04Suite, cl.Machines[dv.Victim].GetPubKey(), plain, c04Suite.Hash)
 					}
 					req["Deal"], _ = json.Marshal(ct)
@@ -266,7 +306,7 @@ func runC11(c *Ctx, n, t int, tag string, dv c11Dev) c11Obs {
 func scenarioC11(c *Ctx) {
 	type cfg struct{ n, t int }
 	cfgs := []cfg{{3, 2}}
-	kinds := []string{"honest", "bc-all", "bc-first", "bc-last", "bc-short", "bc-empty", "bc-long", "wrong-key", "truncated-9", "truncated-tail", "truncated-60", "garbled", "not-a-deal", "null-deal", "share-off-polynomial", "claims-own-index", "empty", "complaint"}
+	kinds := []string{"honest", "bc-all", "bc-first", "bc-last", "bc-short", "bc-empty", "bc-long", "wrong-key", "truncated-9", "truncated-tail", "truncated-60", "garbled", "not-a-deal", "null-deal", "share-off-polynomial", "higher-degree", "claims-own-index", "empty", "complaint"}
 	if !c.Quick() {
 		cfgs = []cfg{{3, 2}, {2, 2}, {4, 3}, {4, 4}, {5, 3}}
 	}
@@ -404,7 +444,7 @@ func c11Judge(c *Ctx, n, t int, dv c11Dev, o c11Obs) {
 	if dv.Kind == "empty" || dv.Kind == "claims-own-index" {
 		return
 	}
-	c.Case("round-"+dv.Kind, true, fmt.Sprintf("c11round %s %v", map[bool]string{true: "deviating", false: "honest"}[deviates], dv.Kind == "complaint"),
+	c.Case("round-"+dv.Kind, true, fmt.Sprintf("c11round %s %v", map[bool]string{true: "deviating", false: "honest"}[deviates], dv.Kind == "complaint" || dv.Kind == "higher-degree"),
 		"c11round "+strings.Join(uniqueStrings(o.states), ","))
 }
 
@@ -454,4 +494,42 @@ func kyberEncryptDeal(long kyber.Scalar, verifiers []kyber.Point, i int, d *vssP
 		panic(err)
 	}
 	return &vssPedersen.EncryptedDeal{DHKey: dhBuf, Signature: sig, Nonce: nonce, Cipher: gcm.Seal(nil, nonce, buf, ctx)}
+}
+
+// higherShare: f(x) + c*x^t at x = j+1
+func higherShare(v kyber.Scalar, c kyber.Scalar, j int, t int) kyber.Scalar {
+	x := c04Suite.Scalar().SetInt64(int64(j + 1))
+	p := c04Suite.Scalar().One()
+	for k := 0; k < t; k++ {
+		p = c04Suite.Scalar().Mul(p, x)
+	}
+	return c04Suite.Scalar().Add(v, c04Suite.Scalar().Mul(c, p))
+}
+
+// kyberSessionID: vss.sessionID
+func kyberSessionID(dealer kyber.Point, verifiers, commitments []kyber.Point, t int) []byte {
+	h := c04Suite.Hash()
+	dealer.MarshalTo(h)
+	for _, v := range verifiers {
+		v.MarshalTo(h)
+	}
+	for _, cm := range commitments {
+		cm.MarshalTo(h)
+	}
+	binary.Write(h, binary.LittleEndian, uint32(t))
+	return h.Sum(nil)
+}
+
+// signedDkgDeal: the dkg-level envelope of an encrypted deal, signed by the dealer as kyber does
+func signedDkgDeal(long kyber.Scalar, dealer int, enc *vssPedersen.EncryptedDeal) *dkgPedersen.Deal {
+	d := &dkgPedersen.Deal{Index: uint32(dealer), Deal: enc}
+	buf, err := d.MarshalBinary()
+	if err != nil {
+		panic(err)
+	}
+	d.Signature, err = schnorr.Sign(c04Suite, long, buf)
+	if err != nil {
+		panic(err)
+	}
+	return d
 }
